@@ -184,7 +184,7 @@ Definition signature_features : list (string * string) := [
   ("EReference", "transient"); ("EReference", "changeable"); ("EReference", "volatile");
   ("EReference", "unsettable"); ("EReference", "eOpposite"); ("EReference", "eAnnotations");
   ("EEnum", "name"); ("EEnum", "eLiterals"); ("EEnum", "eAnnotations");
-  ("EEnumLiteral", "name"); ("EEnumLiteral", "value");
+  ("EEnumLiteral", "name"); ("EEnumLiteral", "value"); ("EEnumLiteral", "literal");
   ("EDataType", "name"); ("EDataType", "instanceClassName"); ("EDataType", "eAnnotations");
   ("EOperation", "name"); ("EOperation", "eType"); ("EOperation", "lowerBound"); ("EOperation", "upperBound");
   ("EOperation", "ordered"); ("EOperation", "unique"); ("EOperation", "eParameters"); ("EOperation", "eExceptions");
